@@ -32,6 +32,7 @@ RULE = (
     "no unpickling (the library's pickle.loads or the storage layer's pickle.load) may touch bytes that were not "
     "written by a genuine set() for that key; then the run history continues and must stay transparent. Non-trivial: "
     ">= 1 hit observed or >= 1 fault injected; distinct = (program shape, backend, history / fault class)."
+    ' Directed histories: one function behind two cached nodes that differ in their emit name only (two graphs, one cache); list/tuple/set/frozenset/dict arguments with equal members; a size-limited backend where the oldest entry is read just before an insertion (documented LRU).'
 )
 ASSUMPTIONS = [
     "diskcache/sqlite3/pickle/hmac behave as documented; how hypergraph uses them is in scope",
